@@ -432,6 +432,57 @@ def run_asq(c):
     return out
 
 
+UN2 = {
+    'abs': lambda a: abs(a), 'conjugate': lambda a: a.conjugate(), 'sign': lambda a: a.sign,
+    'simplify': lambda a: a.simplify(), 'expand': lambda a: a.expand(), 'copy': lambda a: a.copy(),
+    'subs': lambda a: a.subs(a.var, 2), 'limit': lambda a: a.limit(a.var, 0),
+    'diff': lambda a: a.differentiate(), 'integ': lambda a: a.integrate(),
+    'phase': lambda a: a.phase, 'magnitude': lambda a: a.magnitude, 'pow3': lambda a: a ** 3,
+}
+
+
+def run_un2(c):
+    """unary operations on one class: with the class default units and with the units
+    tagged by A^3 (does the operation carry the operand's own units over?)"""
+    set_flags(c.get('flags', [1, 1, 0]))
+    d, q = c['a']
+    cls = exprclasses[d][q]
+    if d == 'undefined':
+        mk0 = lambda: cls(3 + 2 * sym.Symbol('x'), var='x')
+    else:
+        v = cls(0).var
+        mk0 = lambda: cls(3 + 2 * v) if v is not None else cls(3)
+
+    def mk(tag):
+        a = mk0()
+        if tag:
+            a.units = a.units * u.ampere**3
+        return a
+    out = {}
+    try:
+        a = mk(False)
+        out['src'] = describe(a)
+        out['is_real'] = bool(a.is_real)
+    except Exception as e:
+        return {'src': err_kind(e)}
+    for name, f in UN2.items():
+        out[name] = attempt(lambda: f(mk(False)))
+        if name not in ('phase', 'magnitude', 'pow3'):
+            out['tag:' + name] = attempt(lambda: f(mk(True)))
+    out['conv_self'] = attempt(lambda: mk(False).convolve(mk(False)))
+    out['tag:conv_self'] = attempt(lambda: mk(True).convolve(mk(True)))
+    # convolution with a transfer function (impulse response) of the same domain, both ways
+    try:
+        h = exprclasses[d]['transfer']
+        hv = h(0).var if d != 'undefined' else None
+        mkh = (lambda: h(3 + 2 * sym.Symbol('x'), var='x')) if d == 'undefined' else (lambda: h(3 + 2 * hv) if hv is not None else h(3))
+        out['conv_h'] = attempt(lambda: mk(False).convolve(mkh()))
+        out['h_conv'] = attempt(lambda: mkh().convolve(mk(False)))
+    except Exception as e:
+        out['conv_h'] = out['h_conv'] = err_kind(e)
+    return out
+
+
 def run_circuit(c):
     import lcapy as L
     set_flags(c.get('flags', [1, 1, 0]))
@@ -448,7 +499,7 @@ def run_circuit(c):
     return out
 
 
-RUN = {'asq': run_asq, 'row': run_row, 'unary': run_unary, 'exprmap': run_exprmap, 'meta': run_meta, 'chain': run_chain,
+RUN = {'un2': run_un2, 'asq': run_asq, 'row': run_row, 'unary': run_unary, 'exprmap': run_exprmap, 'meta': run_meta, 'chain': run_chain,
        'transform': run_transform, 'circuit': run_circuit}
 
 
